@@ -305,7 +305,11 @@ std::vector<std::string> split(const std::string &s, char sep)
 std::string classifyStderr(const std::string &err, int status, bool timedOut, std::string &detail)
 {
     if (timedOut) {
-        detail = "watchdog timeout";
+        detail = "watchdog timeout (wall-clock fallback)";
+        return "timeout";
+    }
+    if (WIFSIGNALED(status) && WTERMSIG(status) == SIGXCPU) {
+        detail = "watchdog timeout (CPU seconds of the run exhausted)";
         return "timeout";
     }
     auto find = [&](const std::string &needle) { return err.find(needle); };
@@ -383,6 +387,12 @@ RunResult runSingle(const Engine &eng, const Plan &plan, const std::map<std::str
         getrlimit(RLIMIT_STACK, &rl);
         rl.rlim_cur = 8u << 20;
         setrlimit(RLIMIT_STACK, &rl);
+        // The watchdog proper: CPU seconds of the run, not wall time (a loaded machine must not turn a slow run
+        // into a "timeout").  SIGXCPU ends the child at the soft limit, SIGKILL shortly after.
+        rl.rlim_cur = rlim_t(eng.timeoutS);
+        rl.rlim_max = rlim_t(eng.timeoutS) + 2;
+        setrlimit(RLIMIT_CPU, &rl);
+        signal(SIGXCPU, SIG_DFL);
         Ctx ctx;
         ctx.fd = po[1];
         ctx.trace = gTrace;
@@ -400,7 +410,8 @@ RunResult runSingle(const Engine &eng, const Plan &plan, const std::map<std::str
     std::string out, err;
     struct pollfd fds[2] = {{po[0], POLLIN, 0}, {pe[0], POLLIN, 0}};
     bool open0 = true, open1 = true, timedOut = false;
-    double deadline = t0 + eng.timeoutS;
+    // wall-clock fallback only for a child that stops making progress without using the CPU (nothing in the library blocks)
+    double deadline = t0 + std::max(20.0 * eng.timeoutS, 600.0);
     char buf[65536];
     while (open0 || open1) {
         double left = deadline - nowS();
